@@ -3,6 +3,7 @@ CONSTANTS
   NLines = 2
   Dev = {"enqueue_return_inverted"}
   Lvls = {TRUE, FALSE}
+  TwoPhase = FALSE
   Grain = "stmt"
 SPECIFICATION Spec
 INVARIANT InvExactlyOnce
